@@ -25,7 +25,19 @@ R09.8  the number of ranks a command asks for is the number of slots / ranks,
 R09.9  the element of the can_launch answer which find_launcher reads as the
        verdict is the element the launchers put the verdict in (by position)
 R09.10 files written for a command are opened in a truncating mode
-R09.11 a cursor which hands out rank ids advances by the number of ids used
+R09.11 a cursor which hands out rank ids advances by the number of ids used;
+       the number of ids per iteration is a count of the slot the iteration
+       is at, not of a fixed slot of the list
+R09.12 argument binding: calls of helpers which write a file for the command
+       (ru.create_hostfile by TRUSTED_SIGNATURES, the launcher's own helpers
+       by their definition) bind, text parameters get no non-string constant,
+       the host / slot list parameter gets a value derived from the slots
+R09.13 a constant compared with a case-folded string lies in the image of the
+       folding (flavour / variant detection can succeed)
+R09.14 an aggregate over the slots is rendered into the command behind the
+       loop which fills it, not appended in every iteration
+R09.15 a value read with .get() and derived when unset is derived when the
+       option is absent (the default does not pre-empt the derivation)
 """
 
 import ast
@@ -1144,7 +1156,82 @@ def find_launcher(prog, rep, rid):
                   loc=f.loc(rets[0].ast) if rets else f.loc(),
                   history='a launcher accepts, the caller receives another '
                   'one (or none)')
+    # no launcher leaves find_launcher unasked: whatever a return hands out
+    # (other than None / (None, None)) was bound under the true outcome of a
+    # test on the answer of can_launch
+    tids = {t.id for t in tests}
+    for r, site, v in launcher_returns(g):
+        gs = guards(g, site.id)
+        okg = any(tid in tids and lab == 'T' for tid, lab in gs)
+        rep.check(okg, rid, f,
+                  'what `%s` hands out was accepted by can_launch'
+                  % short(r.ast, 40),
+                  construct=r.ast if site is r else site.ast,
+                  message='find_launcher can return `%s`%s without a true '
+                  'answer of can_launch for that launcher: the statement is '
+                  'not control dependent on the accepting outcome of the test '
+                  'on the answer - a launcher which cannot start the task (or '
+                  'was never asked) is handed to the executor instead of a '
+                  'refusal'
+                  % (short(v, 50), '' if site is r else
+                     ' (bound by `%s`)' % short(site.ast, 50)),
+                  loc=f.loc(site.ast),
+                  history='a pilot whose only launcher is FORK (debug.radical, '
+                  'local.dragon) and a task with 4 ranks placed on node1, '
+                  'node2: FORK.can_launch would answer (False, \'more than '
+                  'one rank\'), but it is returned all the same and its '
+                  'command starts ONE local process')
     return src, head
+
+
+def _none_like(e):
+    return e is None or (isinstance(e, ast.Constant) and e.value is None) or \
+        (isinstance(e, (ast.Tuple, ast.List)) and
+         all(_none_like(x) for x in e.elts))
+
+
+def launcher_returns(g):
+    """[(return cfg node, cfg node which binds what it returns, value)] for
+    the returns of a selection function which may hand out something else
+    than None / (None, None).  A returned local is followed to the definitions
+    which reach the return (`found = None` ... `found = launcher, name`)."""
+    live = g.reachable(g.entry.id)
+    out = []
+
+    def sites(name, at, depth, seen):
+        rd = reaching_defs(g, name, at)
+        if not rd:
+            return None                      # parameter / unknown
+        res = []
+        for dn, dv in rd:
+            if dv is not None and _none_like(dv):
+                continue
+            if isinstance(dv, ast.Name) and depth > 0 and \
+                    (dv.id, dn.id) not in seen:
+                seen.add((dv.id, dn.id))
+                sub = sites(dv.id, dn.id, depth - 1, seen)
+                if sub is not None:
+                    res += sub
+                    continue
+            res.append((dn, dv if dv is not None else dn.ast))
+        return res
+
+    for n in g.nodes:
+        if n.id not in live or n.kind != 'stmt' or \
+                not isinstance(n.ast, ast.Return):
+            continue
+        v = n.ast.value
+        if _none_like(v):
+            continue
+        if isinstance(v, ast.Name):
+            ss = sites(v.id, n.id, 4, set())
+            if ss is None:
+                out.append((n, n, v))
+            else:
+                out += [(n, dn, dv) for dn, dv in ss]
+        else:
+            out.append((n, n, v))
+    return out
 
 
 # ------------------------------------------------------------------------------
@@ -3676,6 +3763,919 @@ def r09_11(prog, rep, classes, rid='R09.11', minimum=13):
                           if width is not None else
                           '3 slots: the ids are 0, %s, ... instead of 0, 1, 2'
                           % s_txt)
+                # the number of ids an iteration uses is a count of the
+                # element the iteration is at, not of a fixed element of the
+                # list the loop walks
+                cnt = width if width is not None else step
+                why = fixed_element_count(
+                    f, loop, cnt, lambda x, w=w: G.from_placement(w, x))
+                if why is None:
+                    continue
+                rep.check(not why, rid, f,
+                          '%s: the number of ids per iteration (`%s`) is a '
+                          'count of the element the loop is at'
+                          % (f.qual, short(cnt, 30)),
+                          construct='%s:cursor:%s:per-element' % (f.name, c),
+                          message='%s hands out `%s` ids in every iteration of '
+                          'the loop over `%s`, but `%s` derives from `%s` and '
+                          'not from the loop element `%s`: %s.  Every '
+                          'iteration gets the rank count of one fixed slot - '
+                          'for a placement with different numbers of ranks '
+                          'per node the file defines more (or fewer) ranks '
+                          'than were placed, and ranks without a core set; '
+                          'no unconditional check in the loop refuses such a '
+                          'placement'
+                          % (f.qual, short(cnt, 30), short(loop.iter, 30),
+                             short(cnt, 30), why,
+                             ', '.join(stores_in_target(loop.target)),
+                             'it is the same for every iteration'),
+                          loc=f.loc(stmt),
+                          history='3 ranks, 2 placed on node 1 and 1 on node 2: '
+                          '`rank: 0,1 : { host: 1; cpu: {0,1},{2,3} }` and '
+                          '`rank: 2,3 : { host: 2; cpu: {4,5} }` - four ranks '
+                          'are defined for three placed, rank 3 has no cores')
+
+
+def fixed_element_count(f, loop, cnt, from_slots=None):
+    """why the per-iteration count `cnt` of a cursor loop is the same for every
+    iteration although it is taken from the list the loop walks: the text of
+    the source (`slots`), '' when the count derives from the loop element (or
+    an unconditional check in the loop compares it with something that does),
+    None when it derives from neither (a constant, configuration)"""
+    if not isinstance(loop, ast.For):
+        return None
+    d = Deps(f.node, implicit=False)
+    lv = set(stores_in_target(loop.target))
+    dep = d.expr_depends(cnt)
+    if dep & lv:
+        return ''
+    src = set()
+    it = loop.iter
+    for n in walk(it, nested=True):
+        if isinstance(n, ast.Name) and isinstance(n.ctx, ast.Load) and \
+                n.id not in ('enumerate', 'list', 'sorted', 'reversed', 'zip',
+                             'tuple', 'iter', 'range', 'len', 'self'):
+            src.add(n.id)
+        elif isinstance(n, ast.Attribute):
+            dn = dotted(n)
+            if dn.startswith('self.'):
+                src.add('.'.join(dn.split('.')[:2]))
+    hit = sorted(x for x in dep & src if from_slots is None or from_slots(x))
+    if not hit:
+        return None
+    # refused rather than mis-counted: an assert / raise in the loop, not
+    # nested in a condition, which holds the count against the element
+    g = cfg_of(f)
+    smap = I.stmt_node_map(g)
+    names = {n.id for n in walk(cnt, nested=True) if isinstance(n, ast.Name)}
+    head = None
+    for n in g.nodes:
+        if n.kind == 'for' and n.ast is loop:
+            head = n
+    body = g.loop_body[head.id] if head is not None else set()
+    for s in walk(loop):
+        test = None
+        if isinstance(s, ast.Assert):
+            test = s.test
+        elif isinstance(s, ast.If) and any(isinstance(b, ast.Raise)
+                                           for b in s.body + s.orelse):
+            test = s.test
+        if test is None or not (d.reads(test) & names) or \
+                not (d.expr_depends(test) & lv):
+            continue
+        cn = smap.get(id(s)) if isinstance(s, ast.Assert) else None
+        if cn is None:
+            for m in walk(test, nested=True):
+                cn = smap.get(id(m))
+                if cn is not None:
+                    break
+        if cn is None or head is None:
+            continue
+        own = {id(m) for m in walk(test, nested=True)}
+        inner = [tid for tid, _ in guards(g, cn.id)
+                 if tid in body and id(g.nodes[tid].ast) not in own]
+        if not inner:
+            return ''
+    return ', '.join(hit)
+
+
+# ------------------------------------------------------------------------------
+# R09.12  argument binding: what a launcher passes to a helper which writes a
+#         file for the command reaches the parameter of the matching role
+#
+# radical.utils is not part of /repo: its functions are trusted by contract
+# (DESIGN 2.8).  The parameter order and the defaults below are an ASSUMPTION
+# about the installed radical.utils,
+#     create_hostfile(sandbox, name, hostlist, sep=' ', impaired=False)
+# (writes `<host><sep><count>` per distinct host, or one host per line and
+# rank with impaired=True) - listed in rep.assumptions.
+#   (parameter, kind, required, role)
+#   kind: 'str' (a non-string constant is rendered into the file / name),
+#         'str?' (None allowed), 'seq', 'flag' (only its truth is used)
+#   role: 'place' = must derive from the node names / indices of the slots
+TRUSTED_SIGNATURES = {
+    'create_hostfile': (('sandbox',  'str?', True,  None),
+                        ('name',     'str',  True,  None),
+                        ('hostlist', 'seq',  True,  'place'),
+                        ('sep',      'str',  False, None),
+                        ('impaired', 'flag', False, None)),
+}
+
+_KIND_OK = {'str':  ('str',),
+            'str?': ('str', 'NoneType'),
+            'seq':  ('seq', 'str'),
+            'flag': None}
+
+
+def bind_call(call, pos, required, vararg=False, kwarg_=False, kwonly=()):
+    """{parameter: actual expression} of a call bound by position and by name;
+    a string which says why the call cannot be bound; None when the call
+    passes *args / **kwargs"""
+    if any(isinstance(a, ast.Starred) for a in call.args) or \
+            any(k.arg is None for k in call.keywords):
+        return None
+    if len(call.args) > len(pos) and not vararg:
+        return '%d positional arguments for %d positional parameters' % (
+            len(call.args), len(pos))
+    out = {}
+    for p, a in zip(pos, call.args):
+        out[p] = a
+    for k in call.keywords:
+        if k.arg not in pos and k.arg not in kwonly:
+            if kwarg_:
+                continue
+            return 'there is no parameter `%s`' % k.arg
+        if k.arg in out:
+            return 'parameter `%s` is given twice' % k.arg
+        out[k.arg] = k.value
+    for p in required:
+        if p not in out:
+            return 'parameter `%s` is not given' % p
+    return out
+
+
+def callee_signature(g, call):
+    """(positional parameter names, required names, has *args, has **kw) of
+    the resolved callee g as `call` sees it (bound receiver dropped)"""
+    a = g.node.args
+    pos = [x.arg for x in a.posonlyargs + a.args]
+    nreq = len(pos) - len(a.defaults)
+    req = pos[:nreq]
+    via_obj = isinstance(call.func, ast.Attribute) and (
+        (isinstance(call.func.value, ast.Name) and
+         call.func.value.id in ('self', 'cls')) or
+        isinstance(call.func.value, ast.Call))
+    if pos and pos[0] in ('self', 'cls') and not is_static(g):
+        if via_obj:
+            pos, req = pos[1:], [r for r in req if r != pos[0]]
+        elif isinstance(call.func, ast.Attribute):
+            return None                    # Class.method(obj, ..): not bound
+    kwonly = [x.arg for x in a.kwonlyargs]
+    req = req + [x.arg for x, dflt in zip(a.kwonlyargs, a.kw_defaults)
+                 if dflt is None]
+    return pos, kwonly, req, a.vararg is not None, a.kwarg is not None
+
+
+def const_kind(f, e, _seen=()):
+    """'str' / 'bool' / 'int' / 'float' / 'NoneType' / 'seq' / 'dict' for an
+    actual whose type is plain from the source, else None"""
+    if isinstance(e, ast.Constant):
+        return type(e.value).__name__
+    if isinstance(e, ast.JoinedStr):
+        return 'str'
+    if isinstance(e, ast.BinOp) and isinstance(e.op, ast.Mod) and \
+            const_kind(f, e.left, _seen) == 'str':
+        return 'str'
+    if isinstance(e, (ast.List, ast.Tuple, ast.Set, ast.ListComp,
+                      ast.SetComp, ast.GeneratorExp)):
+        return 'seq'
+    if isinstance(e, (ast.Dict, ast.DictComp)):
+        return 'dict'
+    if isinstance(e, ast.Name) and e.id not in _seen:
+        ds = defs_of(f, e.id)
+        if ds and _n_stores(f, e.id) == len(ds):
+            ks = {const_kind(f, v, _seen + (e.id,)) for v in ds}
+            if len(ks) == 1:
+                return ks.pop()
+    return None
+
+
+def slot_params(G, g):
+    """parameters of g below which g reads a node name / node index: the
+    parameters which stand for the slot list (or one slot)"""
+    d = G.deps[g.where]
+    ps = set(g.params) - {'self', 'cls'}
+    out, tasklike = set(), set()
+    for n in walk(g.node, nested=True):
+        k = const_key(n)
+        if k in PLACE_KEYS:
+            r = chain_root(key_base(n))
+            if r is None:
+                continue
+            out |= ({r} | set(d.closure(r))) & ps
+        elif k == 'slots':
+            # (a parameter below which the helper reads ['slots'] stands for
+            # the task: whatever object the caller passes carries the slots)
+            r = chain_root(key_base(n))
+            if r is not None:
+                tasklike |= ({r} | set(d.closure(r))) & ps
+    return out - tasklike
+
+
+def r09_12(prog, rep, classes, rid='R09.12', minimum=13):
+    rep.rule(rid, 'argument binding: every call a launcher makes, while it '
+             'builds a command, to a helper which writes a file for the '
+             'command (ru.create_hostfile by its trusted signature; the '
+             'launcher\'s own methods by their definition) can be bound, a '
+             'text parameter (separator, name) does not receive a non-string '
+             'constant, and the parameter which stands for the host / slot '
+             'list receives a value which derives from the slots',
+             minimum=minimum)
+    done = set()
+    for K in classes:
+        f0 = prog.find_method(K, 'get_launch_cmds')
+        if f0 is None:
+            continue
+        G = graph(prog, K, ['get_launch_cmds'], implicit=False, control=False)
+        rep.ok(rid, f0, '%s: the helper calls of the %d function(s) which '
+               'build the command are bound to their signatures'
+               % (K.name, len(G.funcs)), f0.loc())
+
+        def from_slots(w, actual, kinds):
+            d = G.deps[w]
+            cl = G.closure([G.q(w, x) for x in d.reads(actual)])
+            if 'place' in kinds and G.marks(cl, ('place',)):
+                return True
+            return 'slots' in kinds and any(
+                isinstance(l, str) and l in ('@slots', '@iter!', '@place!',
+                                             '@len!') for _, l in cl)
+
+        # (a) library helpers of the trusted table
+        for w in sorted(G.funcs):
+            f = G.funcs[w]
+            for c in calls_in(f.node, nested=True):
+                nm = (call_name(c) or '').split('.')[-1]
+                sig = TRUSTED_SIGNATURES.get(nm)
+                if sig is None or not call_name(c):
+                    continue
+                key = (w, c.lineno, c.col_offset)
+                if key in done:
+                    continue
+                done.add(key)
+                rep.saw(f)
+                names = [p for p, _, _, _ in sig]
+                b = bind_call(c, names, [p for p, _, r, _ in sig if r])
+                if b is None:
+                    raise AnalysisError('UNRECOGNISED-IDIOM %s: `%s` passes '
+                                        '* / ** arguments' % (f.where,
+                                                              short(c, 50)))
+                if isinstance(b, str):
+                    rep.bad(rid, f, '%s:%s:binding' % (f.name, nm),
+                            '%s calls `%s`, which cannot be bound to %s(%s): '
+                            '%s - the host file of the command is never '
+                            'written' % (f.qual, short(c, 60), nm,
+                                         ', '.join(names), b),
+                            f.loc(c),
+                            history='any task which takes this branch: '
+                            'TypeError instead of a command')
+                    continue
+                for p, kind, _, role in sig:
+                    if p not in b:
+                        continue
+                    a = b[p]
+                    ak = const_kind(f, a)
+                    okk = _KIND_OK[kind] is None or ak is None or \
+                        ak in _KIND_OK[kind]
+                    bypos = any(a is x for x in c.args)
+                    rep.check(okk, rid, f,
+                              '%s: `%s` of %s receives %s' % (
+                                  f.qual, p, nm, short(a, 30)),
+                              construct='%s:%s:%s' % (f.name, nm, p),
+                              message='%s passes `%s` %s to %s(%s): it lands '
+                              'in the parameter `%s`, which is text that %s '
+                              'renders into the file it writes, and is a %s '
+                              'constant%s - every line of the host file reads '
+                              '`<node>%s<count>`: the command names hosts '
+                              'which do not exist and none of the placement'
+                              % (f.qual, short(a, 30),
+                                 'as argument %d' % (
+                                     [x is a for x in c.args].index(True) + 1)
+                                 if bypos else 'by keyword', nm,
+                                 ', '.join(names), p, nm, ak,
+                                 ' (the parameters after it keep their '
+                                 'defaults: was a keyword dropped?)'
+                                 if bypos else '',
+                                 unparse(a)), loc=f.loc(c),
+                              history='mpirun task with more than 42 ranks '
+                              '(host file branch), 20 + 20 + 4 ranks on node1, '
+                              'node2, node3: the file names `node1True20`, '
+                              '`node2True20`, `node3True4`')
+                    if role == 'place':
+                        okp = from_slots(w, a, ('place',))
+                        rep.check(okp, rid, f,
+                                  '%s: `%s` of %s derives from the node names '
+                                  'of the slots' % (f.qual, p, nm),
+                                  construct='%s:%s:%s:role' % (f.name, nm, p),
+                                  message='%s passes `%s` as `%s` of %s(%s), '
+                                  'but that value does not derive from the '
+                                  'node names / indices of task[\'slots\']: '
+                                  'the host file does not name the nodes of '
+                                  'the placement (arguments in the wrong '
+                                  'order?)' % (f.qual, short(a, 30), p, nm,
+                                               ', '.join(names)),
+                                  loc=f.loc(c),
+                                  history='any task of the host file branch: '
+                                  'the file lists something else than the '
+                                  'nodes the scheduler reserved')
+        # (b) the launcher's own helpers: the parameter a helper reads the
+        # node names below gets the slots
+        for f, c, g in G.calls:
+            key = (f.where, c.lineno, c.col_offset, g.where)
+            if key in done:
+                continue
+            done.add(key)
+            sp = slot_params(G, g)
+            if not sp:
+                continue
+            sg = callee_signature(g, c)
+            if sg is None:
+                continue
+            pos, kwonly, req, va, kw = sg
+            b = bind_call(c, pos, req, va, kw, kwonly)
+            if b is None:
+                continue
+            if isinstance(b, str):
+                rep.bad(rid, f, '%s:%s:binding' % (f.name, g.name),
+                        '%s calls `%s`, which cannot be bound to %s(%s): %s'
+                        % (f.qual, short(c, 60), g.qual,
+                           ', '.join(pos + kwonly), b), f.loc(c),
+                        history='any task which takes this branch: TypeError '
+                        'instead of a command')
+                continue
+            for p in sorted(sp):
+                if p not in b:
+                    continue
+                rep.saw(f)
+                okp = from_slots(f.where, b[p], ('place', 'slots'))
+                rep.check(okp, rid, f,
+                          '%s: `%s` of %s receives the slots (%s)'
+                          % (f.qual, p, g.qual, short(b[p], 30)),
+                          construct='%s:%s:%s:role' % (f.name, g.name, p),
+                          message='%s passes `%s` as `%s` of %s, the '
+                          'parameter below which %s reads the node names / '
+                          'indices, but that value does not derive from '
+                          'task[\'slots\'] (arguments in the wrong order?): '
+                          'the file / option it builds does not name the '
+                          'nodes of the placement'
+                          % (f.qual, short(b[p], 30), p, g.qual, g.name),
+                          loc=f.loc(c),
+                          history='any task of this branch: the helper '
+                          'iterates something else than the slots (or '
+                          'raises)')
+
+
+# ------------------------------------------------------------------------------
+# R09.13  a constant compared with a case-folded string lies in the image of
+#         the folding
+#
+_CASE = {'lower': str.lower, 'upper': str.upper, 'casefold': str.casefold}
+_KEEP_CASE = ('strip', 'lstrip', 'rstrip')
+_STR_PROBES = ('startswith', 'endswith', 'find', 'rfind', 'index', 'rindex',
+               'count', 'split', 'rsplit', 'partition', 'rpartition')
+
+
+def case_image(f, e, _seen=()):
+    """'lower' / 'upper' / 'casefold' when every value of e is the result of
+    that case mapping (directly, stripped, or through locals each binding of
+    which is), else None"""
+    if isinstance(e, ast.Call) and isinstance(e.func, ast.Attribute):
+        if e.func.attr in _CASE and not e.args and not e.keywords:
+            return e.func.attr
+        if e.func.attr in _KEEP_CASE:
+            return case_image(f, e.func.value, _seen)
+    if isinstance(e, ast.Name) and e.id not in _seen:
+        ds = defs_of(f, e.id)
+        if ds and _n_stores(f, e.id) == len(ds):
+            ks = {case_image(f, v, _seen + (e.id,)) for v in ds}
+            if len(ks) == 1:
+                return ks.pop()
+    return None
+
+
+def case_probes(prog, f):
+    """[(node, case mapping, constant expr, [str values], always)] for the
+    comparisons / searches of f which hold a constant against a case-folded
+    string.  always: outcome of the comparison when the constant cannot match
+    ('false' for ==, in, startswith ..; 'true' for !=, not in)"""
+    out = []
+
+    def strs(e):
+        v = prog.fold(f.module, e, f.cls)
+        if isinstance(v, str):
+            return [v]
+        if isinstance(v, (list, tuple, set, frozenset, dict)) and v and \
+                all(isinstance(x, str) for x in v):
+            return list(v)
+        return None
+
+    for n in walk(f.node, nested=True):
+        if isinstance(n, ast.Compare) and len(n.ops) == 1:
+            op, l, r = n.ops[0], n.left, n.comparators[0]
+            neg = isinstance(op, (ast.NotIn, ast.NotEq))
+            if isinstance(op, (ast.In, ast.NotIn)):
+                m = case_image(f, r)
+                if m and strs(l) and not isinstance(
+                        prog.fold(f.module, l, f.cls), (list, tuple)):
+                    out.append((n, m, l, strs(l), neg))
+                    continue
+                m = case_image(f, l)
+                if m and strs(r):
+                    out.append((n, m, r, strs(r), neg))
+            elif isinstance(op, (ast.Eq, ast.NotEq)):
+                for a, b in ((l, r), (r, l)):
+                    m = case_image(f, a)
+                    if m and isinstance(prog.fold(f.module, b, f.cls), str):
+                        out.append((n, m, b, strs(b), neg))
+                        break
+        elif isinstance(n, ast.Call) and isinstance(n.func, ast.Attribute) \
+                and n.func.attr in _STR_PROBES and n.args:
+            m = case_image(f, n.func.value)
+            if m and strs(n.args[0]):
+                out.append((n, m, n.args[0], strs(n.args[0]), False))
+    return out
+
+
+def r09_13(prog, rep, classes, rid='R09.13', minimum=12):
+    rep.rule(rid, 'a constant which a launcher compares with (searches in) a '
+             'case-folded string - `C in x.lower()`, `x.lower() == C`, '
+             '`x.upper() in (C1, C2)`, `x.lower().startswith(C)` - lies in the '
+             'image of that folding: otherwise the test has one outcome for '
+             'every input and the flavour / variant it detects (which decides '
+             'the options of the command) is never detected',
+             minimum=minimum)
+    f_create, rows = factory(prog)
+    done = set()
+    for K in classes:
+        for name, f in sorted(I.class_methods(prog, K).items()):
+            if f.where in done or f.cls is None or \
+                    f.cls.module.rel.split('/')[0] != 'agent':
+                continue
+            done.add(f.where)
+            for n, m, ce, vals, neg in case_probes(prog, f):
+                rep.saw(f)
+                badv = [v for v in vals if _CASE[m](v) != v]
+                rep.check(not badv, rid, f,
+                          '%s: `%s` can match a string folded by .%s()'
+                          % (f.qual, short(ce, 30), m),
+                          construct='%s:case:%s' % (f.name, unparse(ce)),
+                          message='%s tests `%s`: the constant `%s` = %s is '
+                          'held against a string which went through .%s() and '
+                          'contains characters that mapping removes - the '
+                          'test is %s for every input, so what it guards is '
+                          '%s.  The detection it implements (MPI flavour, '
+                          'launcher variant, option switch) has one outcome '
+                          'whatever the installation: the command is built '
+                          'with the options of another flavour / variant'
+                          % (f.qual, short(n, 60), short(ce, 40),
+                             ', '.join(repr(v) for v in badv), m,
+                             'true' if neg else 'false',
+                             'always done' if neg else 'never done'),
+                          loc=f.loc(n),
+                          history='mpiexec installed as /opt/cray/pals/1.2/'
+                          'bin/mpiexec: `\'PALS\' in exe.lower()` is false, '
+                          'the flavour is taken from the generic `version` '
+                          'line (OMPI) and MPIExec builds `-np 3 --hostfile '
+                          'f` without `--ppn 2 --cpu-bind list:4-5:6-7:0-1`: '
+                          'the ranks are not pinned to the cores of the '
+                          'placement')
+            # (information) a lower-case constant searched in the launcher
+            # name as it is: the names of the factory table are upper case
+            for n in walk(f.node, nested=True):
+                if isinstance(n, ast.Compare) and len(n.ops) == 1 and \
+                        isinstance(n.ops[0], (ast.In, ast.NotIn)) and \
+                        dotted(n.comparators[0]) == 'self.name':
+                    v = prog.fold(f.module, n.left, f.cls)
+                    names = [nm for nm, C in rows
+                             if f.cls in prog.mro(C)]
+                    if isinstance(v, str) and names and \
+                            not any(v in nm for nm in names):
+                        rep.info(rid, f, '%s tests `%s`, but none of the names '
+                                 'LaunchMethod.create accepts for this class '
+                                 '(%s) contains %r: the test has one outcome '
+                                 '(the names are upper case, the constant is '
+                                 'not; init_from_scratch folds the name with '
+                                 '.lower() first)'
+                                 % (f.qual, short(n, 40), ', '.join(names), v),
+                                 f.loc(n))
+
+
+# ------------------------------------------------------------------------------
+# R09.14  an aggregate over the slots is rendered into the command when it is
+#         complete: after the loop which fills it, not in it
+#
+_FILLERS = ('append', 'add', 'update', 'extend', 'setdefault', 'insert',
+            'appendleft')
+_APPENDERS = ('append', 'extend', 'insert', 'appendleft', 'write',
+              'writelines')
+_ELEMENTWISE = ('get', 'count', 'index', 'pop', 'setdefault')
+
+
+def whole_read(expr, X):
+    """expr reads several elements of the container named X at once (iterates
+    it or a view of it, joins / sorts / copies it); element access x[k],
+    x.get(k), membership tests and len(x) (a running count) are not"""
+    par = _parents(expr)
+    for n in ast.walk(expr):
+        if not (isinstance(n, ast.Name) and n.id == X and
+                isinstance(n.ctx, ast.Load)):
+            continue
+        p = par.get(id(n))
+        if isinstance(p, ast.Subscript) and p.value is n and \
+                not isinstance(p.slice, ast.Slice):
+            continue
+        if isinstance(p, ast.Attribute):
+            pp = par.get(id(p))
+            if isinstance(pp, ast.Call) and pp.func is p and \
+                    p.attr in _ELEMENTWISE + _FILLERS:
+                continue
+        if isinstance(p, ast.Call) and dotted(p.func) == 'len':
+            continue
+        if isinstance(p, ast.Compare) and any(n is c for c in p.comparators) \
+                and all(isinstance(o, (ast.In, ast.NotIn)) for o in p.ops):
+            continue
+        return True
+    return False
+
+
+def partial_aggregates(f):
+    """[(loop, accumulating statement, accumulator, aggregate)]: a loop which
+    fills a container defined outside of it (x[k] = / x[k] += / x.append ..)
+    and which, in its body, also APPENDS (`s += ..`, `s = s + ..`,
+    `l.append(..)`, `fh.write(..)`) to an accumulator that lives across the
+    iterations something computed from the whole of that container"""
+    out = []
+    for L in walk(f.node, nested=True):
+        if not isinstance(L, ast.For):
+            continue
+        nodes = [n for s in L.body for n in ast.walk(s)]
+        bound = set()
+        for n in nodes:
+            if isinstance(n, ast.Assign):
+                for t in n.targets:
+                    bound |= set(stores_in_target(t))
+            elif isinstance(n, (ast.For, ast.comprehension)):
+                bound |= set(stores_in_target(n.target))
+            elif isinstance(n, ast.withitem) and n.optional_vars is not None:
+                bound |= set(stores_in_target(n.optional_vars))
+            elif isinstance(n, ast.NamedExpr):
+                bound |= set(stores_in_target(n.target))
+        # x = x + e keeps x alive across the iterations
+        selfadd = set()
+        for n in nodes:
+            if isinstance(n, ast.Assign) and len(n.targets) == 1 and \
+                    isinstance(n.targets[0], ast.Name) and \
+                    isinstance(n.value, ast.BinOp) and \
+                    isinstance(n.value.op, ast.Add) and any(
+                        isinstance(x, ast.Name) and x.id == n.targets[0].id
+                        for x in (n.value.left, n.value.right)):
+                selfadd.add(n.targets[0].id)
+        nplain = {}
+        for n in nodes:
+            if isinstance(n, ast.Assign):
+                for t in n.targets:
+                    for x in stores_in_target(t):
+                        nplain[x] = nplain.get(x, 0) + 1
+        rebound = {x for x in bound
+                   if not (x in selfadd and nplain.get(x) == 1)}
+        filled = {}
+        for n in nodes:
+            if isinstance(n, (ast.Assign, ast.AugAssign)):
+                tg = n.targets if isinstance(n, ast.Assign) else [n.target]
+                for t in tg:
+                    if isinstance(t, ast.Subscript) and \
+                            isinstance(t.value, ast.Name):
+                        filled.setdefault(t.value.id, n)
+            elif isinstance(n, ast.Call) and \
+                    isinstance(n.func, ast.Attribute) and \
+                    n.func.attr in _FILLERS and \
+                    isinstance(n.func.value, ast.Name):
+                filled.setdefault(n.func.value.id, n)
+        filled = {x: s for x, s in filled.items() if x not in rebound}
+        if not filled:
+            continue
+        tainted = {}
+
+        def src_of(exprs):
+            for e in exprs:
+                for X in sorted(filled):
+                    if whole_read(e, X):
+                        return X
+                for m in ast.walk(e):
+                    if isinstance(m, ast.Name) and m.id in tainted and \
+                            isinstance(m.ctx, ast.Load):
+                        return tainted[m.id]
+            return None
+
+        changed = True
+        while changed:
+            changed = False
+            for n in nodes:
+                names, X = [], None
+                if isinstance(n, ast.Assign):
+                    for t in n.targets:
+                        names += stores_in_target(t)
+                    X = src_of([n.value])
+                elif isinstance(n, (ast.For, ast.comprehension)):
+                    names = stores_in_target(n.target)
+                    X = src_of([n.iter])
+                elif isinstance(n, ast.Call) and \
+                        isinstance(n.func, ast.Attribute) and \
+                        n.func.attr in _FILLERS and \
+                        isinstance(n.func.value, ast.Name) and \
+                        n.func.value.id in rebound:
+                    names = [n.func.value.id]
+                    X = src_of(list(n.args) + [k.value for k in n.keywords])
+                elif isinstance(n, ast.AugAssign) and \
+                        isinstance(n.target, ast.Name) and \
+                        n.target.id in rebound:
+                    names = [n.target.id]
+                    X = src_of([n.value])
+                for nm in names:
+                    if X and nm in rebound and nm not in tainted:
+                        tainted[nm] = X
+                        changed = True
+        for n in nodes:
+            T, vals = None, []
+            if isinstance(n, ast.AugAssign) and isinstance(n.op, ast.Add) and \
+                    not isinstance(n.target, ast.Subscript):
+                T, vals = Deps.loc(n.target), [n.value]
+            elif isinstance(n, ast.Assign) and len(n.targets) == 1 and \
+                    isinstance(n.targets[0], ast.Name) and \
+                    n.targets[0].id in selfadd:
+                T, vals = n.targets[0].id, [n.value]
+            elif isinstance(n, ast.Expr) and isinstance(n.value, ast.Call) and \
+                    isinstance(n.value.func, ast.Attribute) and \
+                    n.value.func.attr in _APPENDERS:
+                T = Deps.loc(n.value.func.value)
+                vals = list(n.value.args)
+            if T is None or T in rebound or T in tainted:
+                continue
+            X = src_of(vals)
+            if X and X != T:
+                out.append((L, n, T, X))
+    return out
+
+
+def r09_14(prog, rep, classes, rid='R09.14', minimum=13):
+    rep.rule(rid, 'an aggregate which a launcher builds over the slots (ranks '
+             'per node, list of hosts) goes into the command once, when the '
+             'loop which fills it is done: the loop does not append a '
+             'rendering of the whole, still partial, aggregate to the command '
+             'in every iteration', minimum=minimum)
+    done = set()
+    for K in classes:
+        f0 = prog.find_method(K, 'get_launch_cmds')
+        if f0 is None:
+            continue
+        G = graph(prog, K, ['get_launch_cmds'], implicit=False, control=False)
+        used = G.closure([('RET', f0.where), ('FILE', '')])
+        rep.ok(rid, f0, '%s: the loops of the %d function(s) which build the '
+               'command render no partial aggregate' % (K.name, len(G.funcs)),
+               f0.loc())
+        for w in sorted(G.funcs):
+            if w in done:
+                continue
+            done.add(w)
+            f = G.funcs[w]
+            for L, stmt, T, X in partial_aggregates(f):
+                if not value_flows(used, w, f, stmt.value) and \
+                        (w, T) not in used:
+                    continue
+                rep.saw(f)
+                rep.bad(rid, f, '%s:partial:%s' % (f.name, X),
+                        '%s appends `%s` to `%s` inside the loop over `%s` '
+                        'which is still filling `%s`: the rendering of the '
+                        'whole aggregate goes into the command once per '
+                        'iteration, each time with the entries / counts seen '
+                        'so far - the command names nodes several times and '
+                        'with partial counts (it belongs behind the loop)'
+                        % (f.qual, short(stmt, 60), T, short(L.iter, 30), X),
+                        f.loc(stmt),
+                        history='task with 3 ranks, 2 placed on node1 and 1 '
+                        'on node2: `--host node1:1 --host node1:2 --host '
+                        'node1:2,node2:1` - node1 is named with 5 slots for '
+                        '2 placed ranks (single-rank tasks are unchanged)')
+
+
+# ------------------------------------------------------------------------------
+# R09.15  a value which is derived when its option is not configured is
+#         derived when the option is absent
+#
+_ABSENT_UNKNOWN = object()
+
+
+def is_get(e):
+    return isinstance(e, ast.Call) and isinstance(e.func, ast.Attribute) and \
+        e.func.attr == 'get' and 1 <= len(e.args) <= 2
+
+
+def absent_value(prog, f, e):
+    """value of e when the option(s) it reads with .get() are absent, or
+    _ABSENT_UNKNOWN"""
+    if is_get(e):
+        if len(e.args) == 1:
+            return None
+        dflt = e.args[1]
+        v = prog.fold(f.module, dflt, f.cls)
+        if v is UNKNOWN:
+            if flow_falsy(dflt):
+                return ()
+            return _ABSENT_UNKNOWN
+        return v
+    if isinstance(e, ast.Constant):
+        return e.value
+    if isinstance(e, ast.BoolOp) and isinstance(e.op, ast.Or):
+        v = _ABSENT_UNKNOWN
+        for x in e.values:
+            v = absent_value(prog, f, x)
+            if v is _ABSENT_UNKNOWN:
+                return v
+            try:
+                if v:
+                    return v
+            except Exception:
+                return _ABSENT_UNKNOWN
+        return v
+    if isinstance(e, ast.Call) and dotted(e.func) in ('int', 'float', 'str',
+                                                      'bool') \
+            and len(e.args) == 1 and not e.keywords:
+        v = absent_value(prog, f, e.args[0])
+        if v is _ABSENT_UNKNOWN or v is None:
+            return _ABSENT_UNKNOWN
+        try:
+            return {'int': int, 'float': float, 'str': str,
+                    'bool': bool}[dotted(e.func)](v)
+        except Exception:
+            return _ABSENT_UNKNOWN
+    return _ABSENT_UNKNOWN
+
+
+def flow_falsy(e):
+    return (isinstance(e, (ast.List, ast.Tuple, ast.Dict, ast.Set)) and
+            not getattr(e, 'elts', getattr(e, 'keys', None))) or (
+        isinstance(e, ast.Call) and isinstance(e.func, ast.Name) and
+        e.func.id in ('list', 'dict', 'set', 'tuple') and not e.args and
+        not e.keywords)
+
+
+def reads_option(e):
+    return any(is_get(n) for n in walk(e, nested=True))
+
+
+def test_outcome(prog, f, t, name, v):
+    """'T' / 'F': the edge the test atom t takes when local `name` has the
+    value v; None if t is not a test on that local alone"""
+    if isinstance(t, ast.Name) and t.id == name:
+        return 'T' if v else 'F'
+    if isinstance(t, ast.Compare) and len(t.ops) == 1 and \
+            isinstance(t.left, ast.Name) and t.left.id == name:
+        c = prog.fold(f.module, t.comparators[0], f.cls)
+        if c is UNKNOWN:
+            return None
+        # (only tests for `not set`: a comparison with a value which stands
+        # for a setting - `x == 'auto'` - is not a fallback for the unset case)
+        if c is not None and not (isinstance(c, (int, float, str, bool)) and
+                                  not c):
+            return None
+        op = t.ops[0]
+        try:
+            if isinstance(op, ast.Is):
+                r = v is c if c is None or isinstance(c, bool) else None
+            elif isinstance(op, ast.IsNot):
+                r = v is not c if c is None or isinstance(c, bool) else None
+            elif type(op) in _OPS:
+                r = _OPS[type(op)](v, c)
+            else:
+                r = None
+        except Exception:
+            r = None
+        if r is None:
+            return None
+        return 'T' if r else 'F'
+    return None
+
+
+def dead_fallbacks(prog, f):
+    """[(name, option read, fallback node, test ast, absent value, dead)]: a
+    local read from configuration with .get() and re-defined under a test on
+    that local alone (`x = cfg.get(k); if not x: x = <derived>`); dead: the
+    re-definition cannot run when the option is absent, because the default
+    of the .get() already decides the test the other way"""
+    g = cfg_of(f)
+    out = []
+    live = g.reachable(g.entry.id)
+    for t in g.nodes:
+        if t.kind != 'test' or t.id not in live:
+            continue
+        names = [n.id for n in walk(t.ast) if isinstance(n, ast.Name)]
+        if len(set(names)) != 1:
+            continue
+        x = names[0]
+        rd = reaching_defs(g, x, t.id)
+        if not rd or any(v is None for _, v in rd) or \
+                not any(reads_option(v) for _, v in rd):
+            continue
+        # the re-definitions which one outcome of the test guards
+        for lab in ('T', 'F'):
+            fbs = []
+            for d in g.nodes:
+                if d.kind == 'stmt' and isinstance(d.ast, ast.Assign) and \
+                        d.id in live and any(
+                            isinstance(tt, ast.Name) and tt.id == x
+                            for tt in d.ast.targets) and \
+                        (t.id, lab) in guards(g, d.id) and \
+                        not reads_option(d.ast.value):
+                    fbs.append(d)
+            if not fbs:
+                continue
+            outs = []
+            for _, v in rd:
+                av = absent_value(prog, f, v)
+                outs.append((v, av, None if av is _ABSENT_UNKNOWN else
+                             test_outcome(prog, f, t.ast, x, av)))
+            if any(o is None for _, _, o in outs):
+                continue
+            dead = all(o != lab for _, _, o in outs)
+            for d in fbs:
+                out.append((x, outs[0][0], d, t.ast, outs[0][1], dead))
+    # `x = cfg.get(k, C) or <derived>`
+    for n in walk(f.node, nested=True):
+        if isinstance(n, ast.Assign) and len(n.targets) == 1 and \
+                isinstance(n.targets[0], ast.Name) and \
+                isinstance(n.value, ast.BoolOp) and \
+                isinstance(n.value.op, ast.Or) and \
+                is_get(n.value.values[0]) and \
+                any(not isinstance(v, ast.Constant)
+                    for v in n.value.values[1:]):
+            av = absent_value(prog, f, n.value.values[0])
+            if av is _ABSENT_UNKNOWN:
+                continue
+            try:
+                dead = bool(av)
+            except Exception:
+                continue
+            out.append((n.targets[0].id, n.value.values[0], n, n.value, av,
+                        dead))
+    return out
+
+
+def r09_15(prog, rep, classes, rid='R09.15', minimum=13):
+    rep.rule(rid, 'a value of the command which a launcher reads from its '
+             'configuration with .get() and derives (from the allocation, the '
+             'task) when it is not set - `x = cfg.get(k); if not x: x = '
+             '<derived>` - is derived when the option is ABSENT: the default '
+             'of the .get() does not decide the test the other way',
+             minimum=minimum)
+    done = set()
+    for K in classes:
+        f0 = prog.find_method(K, 'get_launch_cmds')
+        if f0 is None:
+            continue
+        G = graph(prog, K, ['get_launch_cmds'], implicit=False, control=False)
+        used = G.closure([('RET', f0.where), ('FILE', '')])
+        rep.ok(rid, f0, '%s: configured-or-derived values of the %d '
+               'function(s) which build the command are checked'
+               % (K.name, len(G.funcs)), f0.loc())
+        for w in sorted(G.funcs):
+            if w in done:
+                continue
+            done.add(w)
+            f = G.funcs[w]
+            for x, opt, d, t, av, dead in dead_fallbacks(prog, f):
+                if (w, x) not in used:
+                    continue
+                rep.saw(f)
+                dn = d.ast if hasattr(d, 'ast') else d
+                rep.check(not dead, rid, f,
+                          '%s: `%s` is derived when `%s` is absent'
+                          % (f.qual, x, short(opt, 40)),
+                          construct='%s:fallback:%s' % (f.name, x),
+                          message='%s reads `%s = %s`: when the option is not '
+                          'configured the value is the default %r, for which '
+                          '`%s` goes the other way - `%s` never runs for an '
+                          'unconfigured launcher and the constant %r goes '
+                          'into the command in place of the value derived '
+                          'from the allocation / the task'
+                          % (f.qual, x, short(opt, 60), av, short(t, 40),
+                             short(dn, 60), av),
+                          loc=f.loc(dn),
+                          history='ibrun without options.tasks_per_node (no '
+                          'shipped resource configuration sets it), 8 cores '
+                          'per node, 2 ranks placed on node2: '
+                          '`IBRUN_TASKS_PER_NODE=1 ibrun -n 2 -o 6` - one '
+                          'host entry per node, the two ranks are spread over '
+                          'two nodes and the offset points past the '
+                          'allocation')
 
 
 # ------------------------------------------------------------------------------
@@ -3708,7 +4708,25 @@ def run(prog, rep, tier):
         'reach is truncated (or was, on every path, by an earlier open of the '
         'same name); an id cursor (`c = 0` ... `c += step` in a loop, value '
         'collected as `c` or `c + r for r in range(n)`) advances by the '
-        'number of ids used per iteration.')
+        'number of ids used per iteration, and that number derives from the '
+        'element the loop is at when it derives from the iterated list at '
+        'all (or an unconditional assert / raise in the loop compares it '
+        'with the element); every return of find_launcher which can hand '
+        'out a launcher is control dependent on the accepting outcome of '
+        'the test on the can_launch answer (directly, or the definitions of '
+        'the returned local which reach it are); calls of '
+        'ru.create_hostfile bind to the trusted signature, its text '
+        'parameters (sep, name) receive no bool / number constant and its '
+        'hostlist derives from the node names of the slots; the parameter '
+        'below which a launcher\'s own helper reads node names receives a '
+        'value derived from task[\'slots\']; every constant held against a '
+        '.lower() / .upper() / .casefold() result in a method of a factory '
+        'class is a fixed point of that mapping; no loop of the functions '
+        'which build a command appends (+=, append, write) something '
+        'computed from the whole of a container that the same loop fills '
+        'and that is defined outside of it; for `x = cfg.get(k[, C])` '
+        'followed by a re-definition of x under a test on x alone, the '
+        'value for the absent option (None / C) takes the re-defining edge.')
     rep.undecided = ('option semantics of each MPI flavour (whether -host, '
         '-rf, --nodelist, ERF syntax do what the placement says), may-depend '
         'only: a launcher which names the nodes on one of its branches passes '
@@ -3722,7 +4740,17 @@ def run(prog, rep, tier):
         'impaired=True - both carry the multiplicity, which of them mpirun '
         'parses is knowledge about mpirun); Srun: total rank count with a '
         'plain node list (exempt from R09.8 d, see TOTAL_ONLY); a rank id '
-        'which is never advanced (no cursor left to check).')
+        'which is never advanced (no cursor left to check); whether the '
+        'counted `host N` form which ru.create_hostfile writes without '
+        'impaired=True is hostfile syntax mpirun understands (seed C09-g4: '
+        'the keyword dropped - one call site, no sibling to agree with; both '
+        'forms carry the multiplicity); which DEFAULT of an option is right '
+        'when no derivation in the code says what the unset case should be; '
+        'a running count (len of the container being filled) or a single '
+        'element of a partial aggregate appended in the loop; a per-'
+        'iteration value taken from a fixed slot which is not the width of '
+        'an id cursor; a constant tested against the launcher name as it is '
+        '(`\'_dplace\' in self.name`: reported as information, see R09.13).')
     rep.assumptions = [
         'no monkey patching / setattr with computed names on launcher '
         'objects; launchers outside the package are not analysed',
@@ -3732,6 +4760,12 @@ def run(prog, rep, tier):
         'bound once to a path below self.<attr> (or an element of it)',
         'the slot list is what is read with the constant key \'slots\'; node '
         'identity is what is read with the keys node_name / node_index',
+        'radical.utils is trusted by contract and not analysed: '
+        'create_hostfile(sandbox, name, hostlist, sep=\' \', impaired=False) '
+        '(TRUSTED_SIGNATURES) - parameter order and defaults as in the '
+        'installed radical.utils; sep is rendered between host and count',
+        'dict.get(k) yields None and dict.get(k, C) yields C for an absent '
+        'key; str.lower / upper / casefold as in the standard library',
     ]
     classes = factory_classes(prog)
     rep.stat('factory classes', len(classes))
@@ -3751,6 +4785,10 @@ def run(prog, rep, tier):
     rep.attempt(r09_9, prog, rep, classes)
     rep.attempt(r09_10, prog, rep, classes)
     rep.attempt(r09_11, prog, rep, classes)
+    rep.attempt(r09_12, prog, rep, classes)
+    rep.attempt(r09_13, prog, rep, classes)
+    rep.attempt(r09_14, prog, rep, classes)
+    rep.attempt(r09_15, prog, rep, classes)
     if tier == 'thorough':
         base = prog.cls(*LM_BASE)
         extra = [k for k in prog.subclasses(base, strict=True)
@@ -4171,6 +5209,151 @@ SILENT += [
 
 
 # ------------------------------------------------------------------------------
+# round 5: R09.12 (h1), R09.13 (h2), R09.4 return sites (h3), R09.15 (h4),
+# R09.14 (h5), R09.11 per-element count (h6)
+#
+_MR       = _L + 'mpirun.py'
+_MR_HF    = "            hostfile = ru.create_hostfile(sandbox, uid, host_list,\n                                          impaired=True)\n"
+_BASE     = _L + 'base.py'
+_PALS     = "        if 'pals' in exe.lower():\n"
+_FL_NONE  = "            self._log.debug('    %s: %s', name, error)\n\n        return None, None"
+_FL_GET   = "            launcher = self._launchers[name]\n"
+_IB       = _L + 'ibrun.py'
+_IB_GET   = "        tasks_per_node = self._lm_cfg.get('options', {}).get('tasks_per_node')\n"
+_IB_FB    = "        if not tasks_per_node:\n            tasks_per_node = self._rm_info['cores_per_node'] // \\\n                             (n_ranks * n_threads_per_rank) or 1\n"
+_PR       = _L + 'prte.py'
+_PR_LOOP  = "            for slot in slots:\n                ranks[slot['node_name']] += 1\n"
+_PR_HOST  = "            flags += ' --host ' + ','.join(['%s:%s' % x for x in ranks.items()])\n"
+_JS_HEAD  = "        base_id = 0\n        for slot_ranks in slots:\n\n            ranks_per_rs  = len(slot_ranks['cores'])\n"
+
+MUTATIONS += [
+    dict(name='R09.12 mpirun: impaired=True passed by position lands in sep (seed C09-h1)', rules=('R09.12',), edits=[
+        (_MR, _MR_HF, "            hostfile = ru.create_hostfile(sandbox, uid, host_list, True)\n")]),
+    dict(name='R09.12 mpirun: the flag as 1 in the position of the separator', rules=('R09.12',), edits=[
+        (_MR, _MR_HF, "            hostfile = ru.create_hostfile(sandbox, uid, host_list, 1)\n")]),
+    dict(name='R09.12 mpirun: separator given as a flag by keyword', rules=('R09.12',), edits=[
+        (_MR, _MR_HF, "            one_per_rank = True\n            hostfile = ru.create_hostfile(sandbox, uid, host_list,\n                                          sep=one_per_rank)\n")]),
+    dict(name='R09.12 mpirun: file name and host list exchanged', rules=('R09.12',), edits=[
+        (_MR, _MR_HF, "            hostfile = ru.create_hostfile(sandbox, host_list, uid,\n                                          impaired=True)\n")]),
+    dict(name='R09.12 mpirun: one argument too many', rules=('R09.12',), edits=[
+        (_MR, _MR_HF, "            hostfile = ru.create_hostfile(sandbox, uid, host_list, ' ', True,\n                                          True)\n")]),
+    dict(name='R09.12 mpiexec: rank file helper gets uid where it expects the slots', rules=('R09.12',), edits=[
+        (_ME, "            rankfile     = self._get_rank_file(slots, uid, sbox)\n", "            rankfile     = self._get_rank_file(uid, slots, sbox)\n")]),
+    dict(name='R09.12 jsrun: resource set helper gets the sandbox where it expects the slots', rules=('R09.12',), edits=[
+        (_JS, "self._create_resource_set_file(\n                slots, uid, task['task_sandbox_path'])", "self._create_resource_set_file(\n                task['task_sandbox_path'], uid, slots)")]),
+    dict(name='R09.13 pals detection by the upper-case flavour constant (seed C09-h2)', rules=('R09.13',), edits=[
+        (_BASE, _PALS, "        if self.MPI_FLAVOR_PALS in exe.lower():\n")]),
+    dict(name='R09.13 pals detection: upper-case literal, folded path kept in a local', rules=('R09.13',), edits=[
+        (_BASE, _PALS, "        exe_low = exe.lower()\n        if 'PALS' in exe_low:\n")]),
+    dict(name='R09.13 open mpi detection with the capitalised product name', rules=('R09.13',), edits=[
+        (_BASE, "            elif '(open mpi)' in line.lower():", "            elif '(Open MPI)' in line.lower():")]),
+    dict(name='R09.13 mpirun: mpt variant tested with the upper-case suffix', rules=('R09.13',), edits=[
+        (_MR, "        if '_mpt' in self.name.lower():", "        if '_MPT' in self.name.lower():")]),
+    dict(name='R09.13 jsrun: erf variant tested by endswith with the upper-case suffix', rules=('R09.13',), edits=[
+        (_JS, "        if '_erf' in self.name.lower():", "        if self.name.lower().endswith('_ERF'):")]),
+    dict(name='R09.4 find_launcher: single configured launcher returned unasked (seed C09-h3)', rules=('R09.4',), edits=[
+        (_R, "    def find_launcher(self, task):\n\n        errors = list()", "    def find_launcher(self, task):\n\n        if len(self._launch_order) == 1:\n            name = self._launch_order[0]\n            return self._launchers[name], name\n\n        errors = list()")]),
+    dict(name='R09.4 find_launcher: last launcher of the order as fallback when none accepts', rules=('R09.4',), edits=[
+        (_R, _FL_NONE, "            self._log.debug('    %s: %s', name, error)\n\n        return launcher, name")]),
+    dict(name='R09.4 find_launcher: fast path in the loop, in front of the question', rules=('R09.4',), edits=[
+        (_R, _FL_GET, _FL_GET + "            if len(self._launch_order) == 1:\n                return launcher, name\n")]),
+    dict(name='R09.4 find_launcher: default launcher bound in front of the loop', rules=('R09.4',), edits=[
+        (_R, _FL_HEAD, "        errors = list()\n        found  = self._launchers[self._launch_order[0]], self._launch_order[0]\n        for name in self._launch_order:"),
+        (_R, _FL_ACCEPT, "            if lm_can_launch:\n                found = launcher, name\n                break\n            else:"),
+        (_R, _FL_NONE, "            self._log.debug('    %s: %s', name, error)\n\n        return found")]),
+    dict(name='R09.15 ibrun: tasks_per_node defaults to 1 (seed C09-h4)', rules=('R09.15',), edits=[
+        (_IB, _IB_GET, "        tasks_per_node = self._lm_cfg.get('options', {}).get('tasks_per_node', 1)\n")]),
+    dict(name='R09.15 ibrun: tasks_per_node `or 1` in front of the derivation', rules=('R09.15',), edits=[
+        (_IB, _IB_GET, "        tasks_per_node = self._lm_cfg.get('options', {}).get('tasks_per_node') or 1\n")]),
+    dict(name='R09.15 ibrun: default 1, derivation as `or` operand', rules=('R09.15',), edits=[
+        (_IB, _IB_GET + _IB_FB, "        tasks_per_node = self._lm_cfg.get('options', {}).get('tasks_per_node', 1) \\\n                      or self._rm_info['cores_per_node'] // \\\n                         (n_ranks * n_threads_per_rank) or 1\n")]),
+    dict(name='R09.15 ibrun: derivation for None, default 0', rules=('R09.15',), edits=[
+        (_IB, _IB_GET, "        tasks_per_node = self._lm_cfg.get('options', {}).get('tasks_per_node', 0)\n"),
+        (_IB, "        if not tasks_per_node:\n", "        if tasks_per_node is None:\n")]),
+    dict(name='R09.14 prte: --host appended inside the counting loop (seed C09-h5)', rules=('R09.14',), edits=[
+        (_PR, _PR_LOOP + _PR_HOST, _PR_LOOP + "                flags += ' --host ' + ','.join(['%s:%s' % x\n                                                for x in ranks.items()])\n")]),
+    dict(name='R09.14 prte: host string built in a local, appended inside the loop', rules=('R09.14',), edits=[
+        (_PR, _PR_LOOP + _PR_HOST, _PR_LOOP + "                hosts  = ','.join('%s:%s' % x for x in ranks.items())\n                flags += ' --host ' + hosts\n")]),
+    dict(name='R09.14 prte: per-iteration host strings collected in a list', rules=('R09.14',), edits=[
+        (_PR, "            ranks = collections.defaultdict(int)\n" + _PR_LOOP + _PR_HOST,
+         "            ranks = collections.defaultdict(int)\n            hosts = list()\n" + _PR_LOOP + "                hosts.append(','.join(['%s:%s' % x for x in ranks.items()]))\n            flags += ' --host ' + ','.join(hosts)\n")]),
+    dict(name='R09.14 mpiexec host file: lines appended while the hosts are counted', rules=('R09.14',), edits=[
+        (_ME, "        for slot in slots:\n            host_slots[slot['node_name']] += 1\n\n        if mode == 0:\n            hf_str = '%s\\n' % '\\n'.join(list(host_slots.keys()))\n",
+         "        hf_str = ''\n        for slot in slots:\n            host_slots[slot['node_name']] += 1\n            if mode == 0:\n                hf_str += '%s\\n' % '\\n'.join(list(host_slots.keys()))\n\n        if mode == 0:\n            pass\n")]),
+    dict(name='R09.11 jsrun: ranks per resource set taken once from the first slot (seed C09-h6)', rules=('R09.11',), edits=[
+        (_JS, _JS_HEAD, "        base_id       = 0\n        ranks_per_rs  = len(slots[0]['cores'])\n        for slot_ranks in slots:\n\n")]),
+    dict(name='R09.11 jsrun: ranks per resource set of the last slot, in the loop', rules=('R09.11',), edits=[
+        (_JS, "            ranks_per_rs  = len(slot_ranks['cores'])\n", "            ranks_per_rs  = len(slots[-1]['cores'])\n")]),
+    dict(name='R09.11 jsrun: first slot kept in a local, its rank count used for every set', rules=('R09.11',), edits=[
+        (_JS, _JS_HEAD, "        base_id = 0\n        first   = slots[0]\n        for slot_ranks in slots:\n\n            ranks_per_rs  = len(first['cores'])\n")]),
+]
+
+SILENT += [
+    dict(name='mpirun host file: every argument by keyword', edits=[
+        (_MR, _MR_HF, "            hostfile = ru.create_hostfile(sandbox=sandbox, name=uid,\n                                          hostlist=host_list, impaired=True)\n")]),
+    dict(name='mpirun host file: separator spelled out, flag by position', edits=[
+        (_MR, _MR_HF, "            hostfile = ru.create_hostfile(sandbox, uid, host_list, ' ', True)\n")]),
+    dict(name='mpirun host file: flag and host list through locals', edits=[
+        (_MR, _MR_HF, "            one_per_rank = True\n            hosts        = host_list\n            hostfile = ru.create_hostfile(sandbox, uid, hosts,\n                                          impaired=one_per_rank)\n")]),
+    dict(name='mpirun host file: separator in a local', edits=[
+        (_MR, _MR_HF, "            blank    = ' '\n            hostfile = ru.create_hostfile(sandbox, uid, host_list, blank,\n                                          impaired=True)\n")]),
+    dict(name='mpiexec rank file helper called with keywords', edits=[
+        (_ME, "            rankfile     = self._get_rank_file(slots, uid, sbox)\n", "            rankfile     = self._get_rank_file(uid=uid, sandbox=sbox,\n                                               slots=slots)\n")]),
+    dict(name='jsrun resource set helper: slots through a renamed local', edits=[
+        (_JS, "self._create_resource_set_file(\n                slots, uid, task['task_sandbox_path'])", "self._create_resource_set_file(\n                placed, uid, task['task_sandbox_path'])"),
+        (_JS, "        if self._erf:\n\n", "        placed = slots\n        if self._erf:\n\n")]),
+    dict(name='pals detection: folded path kept in a local', edits=[
+        (_BASE, _PALS, "        exe_low = exe.lower()\n        if 'pals' in exe_low:\n")]),
+    dict(name='pals detection: the flavour constant folded as well', edits=[
+        (_BASE, _PALS, "        if self.MPI_FLAVOR_PALS.lower() in exe.lower():\n")]),
+    dict(name='pals detection: upper-case constant against the upper-cased path', edits=[
+        (_BASE, _PALS, "        if self.MPI_FLAVOR_PALS in exe.upper().strip():\n")]),
+    dict(name='pals detection: negated test, early-continue style', edits=[
+        (_BASE, _PALS + "            flavor = self.MPI_FLAVOR_PALS\n", "        if 'pals' not in exe.lower():\n            pass\n        else:\n            flavor = self.MPI_FLAVOR_PALS\n")]),
+    dict(name='mpirun: variant suffixes tested on the lower-cased name kept in a local', edits=[
+        (_MR, "        if '_mpt' in self.name.lower():", "        lname = self.name.lower()\n        if '_mpt' in lname:"),
+        (_MR, "        if '_rsh' in self.name.lower():", "        if lname.endswith('_rsh'):")]),
+    dict(name='find_launcher: accepted pair through a local', edits=[
+        (_R, _FL_ACCEPT, "            if lm_can_launch:\n                pick = launcher, name\n                return pick\n            else:")]),
+    dict(name='find_launcher: break, result chained through two locals, conditional return', edits=[
+        (_R, _FL_HEAD, "        errors = list()\n        found  = None\n        for name in self._launch_order:"),
+        (_R, _FL_ACCEPT, "            if lm_can_launch:\n                cand  = (launcher, name)\n                found = cand\n                break\n            else:"),
+        (_R, "        self._log.error('no launch method for task %s:', task['uid'])", "        if found is not None:\n            return found\n\n        self._log.error('no launch method for task %s:', task['uid'])")]),
+    dict(name='find_launcher: the refusal pair kept in a local', edits=[
+        (_R, _FL_HEAD, "        errors  = list()\n        nothing = None, None\n        for name in self._launch_order:"),
+        (_R, _FL_NONE, "            self._log.debug('    %s: %s', name, error)\n\n        return nothing")]),
+    dict(name='ibrun: tasks_per_node default None spelled out', edits=[
+        (_IB, _IB_GET, "        tasks_per_node = self._lm_cfg.get('options', {}).get('tasks_per_node',\n                                                              None)\n")]),
+    dict(name='ibrun: tasks_per_node default 0, options through a local', edits=[
+        (_IB, _IB_GET, "        lm_options     = self._lm_cfg.get('options', {})\n        tasks_per_node = lm_options.get('tasks_per_node', 0)\n")]),
+    dict(name='ibrun: derivation as `or` operand of the option', edits=[
+        (_IB, _IB_GET + _IB_FB, "        tasks_per_node = self._lm_cfg.get('options', {}).get('tasks_per_node') \\\n                      or self._rm_info['cores_per_node'] // \\\n                         (n_ranks * n_threads_per_rank) or 1\n")]),
+    dict(name='ibrun: derivation when the option is None', edits=[
+        (_IB, "        if not tasks_per_node:\n", "        if tasks_per_node is None or tasks_per_node == 0:\n")]),
+    dict(name='ibrun: configured value kept apart, derivation in the else branch', edits=[
+        (_IB, _IB_GET + _IB_FB, "        configured = self._lm_cfg.get('options', {}).get('tasks_per_node')\n        if configured:\n            tasks_per_node = configured\n        else:\n            tasks_per_node = self._rm_info['cores_per_node'] // \\\n                             (n_ranks * n_threads_per_rank) or 1\n")]),
+    dict(name='ibrun: a named setting (not the unset case) selects the derivation', edits=[
+        (_IB, _IB_GET, "        tasks_per_node = self._lm_cfg.get('options', {}).get('tasks_per_node', 'auto')\n"),
+        (_IB, "        if not tasks_per_node:\n", "        if tasks_per_node == 'auto':\n")]),
+    dict(name='prte: host string through a local, behind the loop', edits=[
+        (_PR, _PR_HOST, "            hosts  = ','.join(['%s:%s' % x for x in ranks.items()])\n            flags += ' --host ' + hosts\n")]),
+    dict(name='prte: host option re-computed per iteration (overwritten), appended behind the loop', edits=[
+        (_PR, _PR_LOOP + _PR_HOST, _PR_LOOP + "                host_opt = ' --host ' + ','.join(['%s:%s' % x\n                                                  for x in ranks.items()])\n            flags += host_opt\n")]),
+    dict(name='prte: order of first appearance recorded in the counting loop', edits=[
+        (_PR, "            ranks = collections.defaultdict(int)\n" + _PR_LOOP + _PR_HOST,
+         "            ranks = collections.defaultdict(int)\n            order = list()\n            for slot in slots:\n                node = slot['node_name']\n                if node not in ranks:\n                    order.append(node)\n                ranks[node] += 1\n            flags += ' --host ' + ','.join(['%s:%s' % (n, ranks[n]) for n in order])\n")]),
+    dict(name='prte: ranks per host by a Counter', edits=[
+        (_PR, "            ranks = collections.defaultdict(int)\n" + _PR_LOOP, "            ranks = collections.Counter(slot['node_name'] for slot in slots)\n")]),
+    dict(name='jsrun: cores of the slot in a local, counted there', edits=[
+        (_JS, "            ranks_per_rs  = len(slot_ranks['cores'])\n", "            rs_cores      = slot_ranks['cores']\n            ranks_per_rs  = len(rs_cores)\n")]),
+    dict(name='jsrun: resource sets walked by index', edits=[
+        (_JS, _JS_HEAD, "        base_id = 0\n        for rs_idx, slot_ranks in enumerate(slots):\n\n            ranks_per_rs  = len(slots[rs_idx]['cores'])\n")]),
+    dict(name='jsrun: rank count of the first slot, every other slot asserted to agree', edits=[
+        (_JS, _JS_HEAD, "        base_id       = 0\n        ranks_per_rs  = len(slots[0]['cores'])\n        for slot_ranks in slots:\n\n            assert len(slot_ranks['cores']) == ranks_per_rs, 'inhomog. RS'\n")]),
+]
+
+
+# ------------------------------------------------------------------------------
 # behaviour-preserving refactorings of the corpus (/verif/seeded/C09-r*):
 # each hunk of the patch becomes one text edit of a SILENT variant
 #
@@ -4215,7 +5398,7 @@ def _corpus():
     here = os.path.dirname(os.path.dirname(os.path.dirname(
         os.path.abspath(__file__))))
     out = []
-    for n in range(1, 10):
+    for n in range(1, 13):
         name = 'C09-r%d' % n
         ed = edits_from_patch(os.path.join(here, 'seeded', name, 'patch.diff'))
         if ed:
